@@ -159,7 +159,7 @@ def r4_check_next_states(ctx, chk, rule="C09.1"):
                 chk.undecided(rule, where, "no node class for %s" % player)
                 continue
             ctor = ctx.prog.resolve_method(cls, "__init__")
-            sx = SymX(ctx, ctor, cls, inline_depth=3).run()
+            sx = SymX(ctx, ctor, cls, inline_depth=6).run()
             if not any(e[1] == "raise" for e in sx.final.effects) and not any(e[1] == "raise" for L in sx.loops.values() for e in L.effects):
                 chk.violation("C09.4", ctor.where(), "constructing a %s node performs no validation of its transitions" % cls, expected="check_next_states() from the constructor",
                               found="no raise reachable", construct="%s constructor does not validate" % cls)
